@@ -6,6 +6,7 @@ Correspondence: (1) parse_template and stock DebugLexer on all short strings ove
 (2) DebugLexer with a preset verbatim state (what parse_template's restart relies on);
 (3) _detailed_tag_parser called directly; (4) the compile path: Template(source) goes through the patched
 compile_nodelist, the line of an `Invalid block tag` error and template_debug['line'] are the token's line.
+(5) monkeypatch_template_cls on hierarchies of Template subclasses (c09_util.py, Lexer/PatchModel.v).
 Direct property oracle (independent of the model): partition / contents / lineno predicates on the tokens,
 equality with stock when no block tag has a quote, and equality with a one-pass quote-aware reference lexer.
 """
@@ -628,7 +629,7 @@ def coq_block_hashes(jobs):
     os.makedirs(d, exist_ok=True)
     paths = []
     for i, (alphabet, L, k, off, cnt) in enumerate(jobs):
-        path = os.path.join(d, "exh_%d.v" % i)
+        path = os.path.join(d, "exh_p%d_%d.v" % (os.getpid(), i))   # pid-tagged: two concurrent C09 runs must not overwrite each other
         with open(path, "w") as f:
             f.write(IMPORTS + "\n")
             f.write("Definition A : list N := [%s]%%N.\n" % "; ".join(str(ord(c)) for c in alphabet))
@@ -1034,9 +1035,11 @@ def run(tier, seed):
              "_detailed_tag_parser directly; compile-path error lines; CR / CRLF sources (alphabet { %% } \" \\r \\n a up to %d, corpus, generators); the token "
              "stream Template(source) hands to django.template.base.Parser (captured by wrapping Parser.__init__, engine.debug on and off) for every "
              "corpus / structured / random / CR source and every 16th exhaustive one: same oracles against Template.source, equality with parse_template, "
-             "model comparison on a sample. Non-trivial = at least two quoted block tags or a multi-line quoted tag "
+             "model comparison on a sample; monkeypatch_template_cls on Template subclasses: all histories of <= %d class-creation (with / without an own "
+             "compile_nodelist) / patch events + random longer ones after django.setup(), and in fresh interpreters with django.setup() at every position / "
+             "never - lexer in use and is_template_cls_patched per class vs Lexer/PatchModel.v, full token oracles for explicitly patched classes. Non-trivial = at least two quoted block tags or a multi-line quoted tag "
              "(detailed parser: closes after skipping a quoted %%}). Distinct = distinct (flag, source)."
-             % (l1, l2, nstruct, l3),
+             % (l1, l2, nstruct, l3, 5 if thorough else 4),
         explanation="theorems of Props/C09.v re-checked by coqc (partition, contents, lineno, first unquoted close, stock equality, equality with the "
                     "one-pass reference lexer spec_lex, first difference, termination - all sources); the Gallina model (django_lex, detailed, parse_template) is evaluated by vm_compute "
                     "inside Coq on the generated cases and compared with the observed tokens / errors of parse_template, DebugLexer and "
